@@ -90,7 +90,9 @@ C16Step(m, o) ==
                 \cup V(E0 = <<>> => S = <<>>, "broadcast()-sent-although-the-backlog-was-empty")
                 \* (a Broadcast without items is legal when nothing fits; it is not when the backlog had
                 \*  been drained by an earlier datagram of the same call)
-                \cup V(E1 = <<>> => \A i \in DOMAIN S : S[i].d.items # <<>>,
+                \* (with variable-length identities an earlier datagram may have had no room while a later one
+                \*  drains the backlog: only datagrams AFTER the draining one are forbidden)
+                \cup V((E1 = <<>> /\ S # <<>>) => S[Len(S)].d.items # <<>>,
                        "broadcast()-kept-sending-after-the-backlog-was-drained")
                 \cup V(LET elig == {x \in active0 : PredHolds(o.static.hpred, x)} IN
                        (o.res = "Ok" /\ Len(S) < Min(o.hpre.cfg.fanout, Cardinality(elig))) => E1 = <<>>,
